@@ -137,6 +137,13 @@ fn check_readback(bytes: &[u8], kvs: &[Kv], full: bool) -> Result<(), String> {
 /// whose length L is calibrated with the independent decoder until the delta
 /// of the root's 'a' transition is the target.
 pub fn delta_boundary_kvs(target: usize) -> Result<Vec<Kv>, String> {
+    delta_boundary_kvs_x(target).map(|x| x.0)
+}
+
+/// The second component says whether the independent decoder reads exactly
+/// the target delta in the final build. It may not on a builder that is wrong
+/// AT the boundary - that is for the check to report, not a machinery failure.
+pub fn delta_boundary_kvs_x(target: usize) -> Result<(Vec<Kv>, bool), String> {
     let make = |wide: usize, l: usize| -> Vec<Kv> {
         let mut kvs: Vec<Kv> = vec![(b"ax".to_vec(), 3)];
         'outer: for h in 0..=255u8 {
@@ -177,12 +184,8 @@ pub fn delta_boundary_kvs(target: usize) -> Result<Vec<Kv>, String> {
             let kvs = make(wide, l - 9);
             // on a correct builder the delta is now exactly the target (a decoder error here
             // is left to the check itself: the builder may be wrong at the boundary)
-            if let Ok(d) = measure(&kvs) {
-                if d != target {
-                    return Err(format!("machinery: calibrated to {} but the final delta is {} instead of {}", aim, d, target));
-                }
-            }
-            return Ok(kvs);
+            let exact = measure(&kvs).map(|d| d == target).unwrap_or(false);
+            return Ok((kvs, exact));
         }
         if got > aim + l {
             return Err(format!("machinery: the bulk alone already gives a delta of {} > {}", got, aim));
@@ -485,10 +488,11 @@ pub fn plan(tier: Tier) -> Plan {
         for off in [-1i64, 0, 1] {
             let target = ((1i64 << k) + off) as usize;
             p.units.push(unit("root-delta-exactly-at-2^8-2^16-2^24-(calibrated-family)", format!("delta {}", target), move |st, rep| {
-                match delta_boundary_kvs(target) {
-                    Ok(kvs) => {
+                match delta_boundary_kvs_x(target) {
+                    Ok((kvs, exact)) => {
                         st.nontrivial += 1;
                         st.count("calibrated_delta_cases", 1);
+                        st.count("calibrated_delta_cases_exactly_on_target", exact as u64);
                         do_case(&kvs, Front::RawInsert, DEFAULT_GEOM, false, st, rep);
                         // lookups through the calibrated transition
                         let bytes = match front::build(Front::RawInsert, DEFAULT_GEOM, &kvs) { Ok(b) => b, Err(_) => return };
@@ -573,6 +577,6 @@ pub fn plan(tier: Tier) -> Plan {
     }
     p.extra.insert("universes".into(), json!(["U_ab3 (15 keys, 32768 subsets)", "U_abc2 (13 keys)", "U_raw2 (13 keys, bytes 00 7f ff)"]));
     p.extra.insert("geometries".into(), json!(GEOMS.iter().map(|g| format!("{}x{}", g.0, g.1)).collect::<Vec<_>>()));
-    p.must_be_nonzero = vec!["fanout_cases".into()];
+    p.must_be_nonzero = vec!["fanout_cases".into(), "calibrated_delta_cases_exactly_on_target".into()];
     p
 }
